@@ -42,7 +42,8 @@ def canonical_type(d):
 
 @spec
 def tuple_type(d):
-    return re_match('^[1-9][0-9]*-tuple$', d)
+    # exactly <n>-tuple: `\\Z`, not `$` (which would also accept a trailing newline)
+    return re_match('^[1-9][0-9]*-tuple\\Z', d)
 
 
 # (the clause 'an n-tuple name is valid' needs a regex inclusion under the lower() fact that both solvers leave
